@@ -18,9 +18,22 @@ every gradient entry is judged on the scale of the terms it sums.  During every 
 over the optimiser's shoulder: the gradient SLSQP is handed when it asks for one is recorded (not altered) and three of
 these requests per fit (first, last, smallest amplitude) are compared with the model's Jacobian and with the oracle's
 numerical gradient of the log-likelihood at that very point.
+
+Private names (DESIGN.md C15, "Robustness against refactorings"): every private member of pylake is looked up at the point
+of use (`priv`, `takes`, getattr); when it is gone or takes other arguments the harness raises its own `Unreachable` and
+(a) makes the observation through the public API -- the arguments fit_binding_times hands to the public DwelltimeModel
+constructor (`model_arguments_recorded`), the public DwelltimeModel evaluated at the harness' parameters with
+scipy.optimize.minimize replaced by a stand-in (`public_model_at`), the bounds SLSQP is handed, kymographs made through
+low_level (`public_kymo`), the kymograph of a track read off its public positions (`kymo_of`) -- or, where no public route
+exists, (b) answers "?", which `agree` and the oracle skip.  An unreachable private name never becomes an implementation
+answer; how often it happened is in the coverage record (`private_members_the_harness_could_not_reach`).
 """
+import contextlib
+import functools
+import inspect
 import itertools
 import math
+import sys
 import warnings
 from fractions import Fraction
 
@@ -83,6 +96,8 @@ TRUSTED = [
     "scipy.optimize.minimize(SLSQP) is a parameter: its result is checked (simplex, bounds, likelihood consistency, "
     "closed form for one component) but convergence for multi-component fits is explored, not proved",
     "scipy.special.logsumexp is modelled as max-shifted log-sum-exp (proved equal to log of the sum of exponentials)",
+    "what a track group hands to the model is observed as the arguments of the public DwelltimeModel constructor, recorded "
+    "(not altered) by a wrapper around DwelltimeModel.__init__ while fit_binding_times runs",
 ]
 ASSUMPTIONS = [
     "amplitudes > 0 and lifetimes > 0 (hypothesis `Admissible`), tmin < tmax resp. step > 0 in the normalisation theorems",
@@ -153,10 +168,128 @@ def as_arg(v):
     return to_f(v)
 
 
-def _dw():
-    from lumicks.pylake.population import dwelltime
+class Unreachable(Exception):
+    """the HARNESS could not reach a private member of pylake (renamed, moved, inlined or given another signature by a
+    refactoring).  It says nothing about what the code computes: the observation is then made through the public API
+    where that is possible, and is "?" (not judged by agree / oracle) where it is not"""
 
-    return dwelltime
+
+_UNREACHABLE = {}  # private name -> number of times the harness had to do without it (coverage record)
+_SIG_OK = {}
+
+
+def _note(what):
+    _UNREACHABLE[what] = _UNREACHABLE.get(what, 0) + 1
+
+
+def _dwmod():
+    """the module that holds the anchored private functions (None when it was moved)"""
+    mod = sys.modules.get("lumicks.pylake.population.dwelltime")
+    if mod is not None:
+        return mod
+    try:
+        from lumicks.pylake.population import dwelltime
+
+        return dwelltime
+    except ImportError:
+        return None
+
+
+def model_class():
+    """DwelltimeModel by its public name"""
+    import lumicks.pylake as lk
+
+    return lk.DwelltimeModel
+
+
+def takes(fn, *a, **kw):
+    """does `fn` still accept the arguments the harness is going to call it with?"""
+    key = (getattr(fn, "__func__", fn), hasattr(fn, "__self__"), len(a), tuple(sorted(kw)))  # the key keeps the function alive
+    if key not in _SIG_OK:
+        try:
+            inspect.signature(fn).bind(*a, **kw)
+            _SIG_OK[key] = True
+        except TypeError:
+            _SIG_OK[key] = False
+        except ValueError:  # no signature available: just try
+            _SIG_OK[key] = True
+    return _SIG_OK[key]
+
+
+def priv(name, *a, **kw):
+    """an anchored private function of population/dwelltime.py, looked up at the point of use; Unreachable when it is
+    not there any more or does not take the harness' arguments any more"""
+    mod = _dwmod()
+    fn = getattr(mod, name, None) if mod is not None else None
+    if not callable(fn) or not takes(fn, *a, **kw):
+        _note(name)
+        raise Unreachable(name)
+    return fn
+
+
+def track_classes():
+    """(KymoTrack, KymoTrackGroup): not exported at the top level of the package; the tracking module re-exports them"""
+    try:
+        from lumicks.pylake.kymotracker.kymotrack import KymoTrack, KymoTrackGroup
+    except ImportError:
+        from lumicks.pylake.kymotracker.kymotracker import KymoTrack, KymoTrackGroup
+    return KymoTrack, KymoTrackGroup
+
+
+@contextlib.contextmanager
+def minimize_replaced(stand_in):
+    """scipy.optimize.minimize (public scipy API; the only door between pylake and the optimiser) replaced by `stand_in`
+    while a DwelltimeModel is built: on scipy.optimize itself and on every module-level name of the dwell-time module(s)
+    that is bound to the same function (`from scipy.optimize import minimize`)"""
+    import scipy.optimize
+
+    real = scipy.optimize.minimize
+    spots = [(scipy.optimize, "minimize")]
+    mods = {id(m): m for m in (_dwmod(), sys.modules.get(getattr(model_class(), "__module__", ""))) if m is not None}
+    for m in mods.values():
+        spots.extend((m, k) for k, v in list(vars(m).items()) if v is real)
+    for m, k in spots:
+        setattr(m, k, stand_in)
+    try:
+        yield real
+    finally:
+        for m, k in spots:
+            setattr(m, k, real)
+
+
+class _Captured(Exception):
+    """raised by the recording constructor when the fit itself is not wanted"""
+
+
+MODEL_ARGS = ("dwelltimes", "min_observation_time", "max_observation_time", "discretization_timestep")
+
+
+@contextlib.contextmanager
+def model_arguments_recorded(run_fit):
+    """what a track group hands to the model: the arguments of the PUBLIC constructor
+    DwelltimeModel(dwelltimes, n_components, *, min_observation_time, max_observation_time, discretization_timestep, ...)
+    are recorded under their documented names while fit_binding_times runs (no private attribute of the fitted model
+    is read).  With run_fit False the constructor stops after recording, so the observation does not depend on whether
+    the optimiser would accept these data"""
+    cls = model_class()
+    orig = cls.__init__
+    sig = inspect.signature(orig)
+    seen = []
+
+    @functools.wraps(orig)
+    def recording_init(self, *a, **kw):
+        b = sig.bind(self, *a, **kw)
+        b.apply_defaults()
+        seen.append({k: b.arguments[k] for k in MODEL_ARGS})
+        if not run_fit:
+            raise _Captured()
+        return orig(self, *a, **kw)
+
+    cls.__init__ = recording_init
+    try:
+        yield seen
+    finally:
+        cls.__init__ = orig
 
 
 def gl_nodes(tmin, tmax, taus):
@@ -308,28 +441,84 @@ def nll_scale(amps, taus, t):
 # ------------------------------------------------------------------ minimal track-group builder
 
 
-def build_kymos(case):
-    from lumicks.pylake.kymo import _kymo_from_array
+KID_STEP = 2.0**-10  # a track of kymograph k sits k/1024 pixel above its pixel row: the label travels with the track
 
-    return [_kymo_from_array(np.zeros((4, k["n_lines"])), "r", line_time_seconds=k["line_time"]) for k in case["kymos"]]
+
+def public_kymo(n_lines, line_time):
+    """a 4-pixel kymograph made through the public low_level API: 4 pixels of 2 samples and 2 samples of dead time per
+    scan line, sample period = a tenth of the requested line time in whole nanoseconds"""
+    import json
+
+    from lumicks.pylake import low_level
+
+    dt = max(1, int(round(float(line_time) * 1e8)))
+    start = 1388534400 * 10**9 + 10**9  # just after the first timestamp pylake accepts
+    infowave = np.tile(np.array([1, 2, 1, 2, 1, 2, 1, 2, 0, 0], dtype=np.uint8), int(n_lines))
+    mk = lambda d: low_level.make_continuous_slice(d, start, dt)  # noqa: E731
+    meta = json.dumps({"value0": {"cereal_class_version": 1, "fluorescence": True, "force": False, "scan count": 0, "scan volume": {
+        "center point (um)": {"x": 0.0, "y": 0.0, "z": 0}, "cereal_class_version": 1, "pixel time (ms)": 0.2,
+        "scan axes": [{"axis": 0, "cereal_class_version": 1, "num of pixels": 4, "pixel size (nm)": 1000.0,
+                       "scan time (ms)": 0, "scan width (um)": 4.0}]}}})
+    zeros = np.zeros(len(infowave), dtype=np.uint32)
+    return low_level.create_confocal_object("verif", mk(infowave), meta, red_channel=mk(zeros), green_channel=mk(zeros),
+                                            blue_channel=mk(zeros))
+
+
+def build_kymos(case):
+    """the kymographs of a case.  `_kymo_from_array` (private helper behind ImageStack.to_kymo / lk.simulation) takes the
+    line time verbatim, which the exact binary line times of the generators rely on; when the harness cannot reach it any
+    more the kymographs are made through the public low_level API instead and the line time / number of scan lines the
+    model and the oracle are told are the ones read back from the public Kymo properties (case['_kymos_seen'])"""
+    case.pop("_kymos_seen", None)
+    try:
+        try:
+            from lumicks.pylake.kymo import _kymo_from_array
+        except ImportError:
+            raise Unreachable("_kymo_from_array")
+        if not takes(_kymo_from_array, np.zeros((4, 2)), "r", line_time_seconds=1.0):
+            raise Unreachable("_kymo_from_array")
+        return [_kymo_from_array(np.zeros((4, k["n_lines"])), "r", line_time_seconds=k["line_time"]) for k in case["kymos"]]
+    except Unreachable:
+        _note("_kymo_from_array")
+    kymos = [public_kymo(k["n_lines"], k["line_time"]) for k in case["kymos"]]
+    case["_kymos_seen"] = [{"n_lines": int(k.get_image("red").shape[1]), "line_time": float(k.line_time_seconds)} for k in kymos]
+    return kymos
+
+
+def kymo_facts(case):
+    """number of scan lines and line time of the kymographs of the case as the tracks see them"""
+    return case.get("_kymos_seen") or case["kymos"]
+
+
+_BUILT = {}  # id(track object) -> (the object, the minimum observable duration the harness gave it), per case
 
 
 def make_track(kymos, tr):
-    """a track on one pixel row (`pos`, in pixels = position units of these kymographs)"""
-    from lumicks.pylake.kymotracker.kymotrack import KymoTrack
-
-    return KymoTrack(
+    """a track on one pixel row (`pos`, in pixels = position units of these kymographs), labelled with its kymograph"""
+    KymoTrack, _ = track_classes()
+    track = KymoTrack(
         np.array(tr["idx"], dtype=np.int64),
-        np.full(len(tr["idx"]), float(tr.get("pos", 1.5))),
+        np.full(len(tr["idx"]), float(tr.get("pos", 1.5)) + KID_STEP * tr["kymo"]),
         kymos[tr["kymo"]],
         "red",
         tr["minobs"],
     )
+    _BUILT[id(track)] = (track, tr["minobs"])
+    return track
+
+
+def kymo_of(track, n_kymos):
+    """which kymograph of the case a track in a group belongs to, read off its public positions (see KID_STEP)"""
+    pos = np.asarray(track.position, dtype=float)
+    if pos.size == 0:
+        return None
+    k = ((pos - 0.5) % 1.0) / KID_STEP
+    kid = int(round(float(k[0])))
+    return kid if 0 <= kid < n_kymos and np.all(np.abs(k - kid) < 1e-3) else None
 
 
 def build_group(case, kymos=None):
-    from lumicks.pylake.kymotracker.kymotrack import KymoTrackGroup
-
+    _, KymoTrackGroup = track_classes()
     kymos = build_kymos(case) if kymos is None else kymos
     return KymoTrackGroup([make_track(kymos, tr) for tr in case["tracks"]])
 
@@ -359,13 +548,28 @@ def seq_flags(case):
 
 
 def observe_group(group, kymos):
-    """the tracks that are in the group now, as one token: kymograph:minimum observable duration:[scan lines]|..."""
+    """the tracks that are in the group now, as one token: kymograph:minimum observable duration:[scan lines]|...
+    The kymograph and the scan lines are public (positions, time_idx).  The minimum observable duration a track carries
+    has no lossless public reader (the CSV export rounds it to 7 digits): it is read from the private attribute while
+    that is reachable; otherwise it is known for the track objects the harness built itself and "?" for the ones the
+    library made (filter, split, merge) -- analyses that need a "?" are then not judged"""
     toks = []
     for tr in group:
-        kid = next((j for j, k in enumerate(kymos) if tr._kymo is k), None)
-        mo = tr._minimum_observable_duration
-        toks.append(f"{'?' if kid is None else kid}:{'N' if mo is None else enc_float(mo)}:"
-                    f"{enc_list([int(v) for v in tr.time_idx])}")
+        kid = kymo_of(tr, len(kymos))
+        try:
+            mo = tr._minimum_observable_duration
+            mo = "N" if mo is None else enc_float(mo)
+        except AttributeError:
+            _note("KymoTrack._minimum_observable_duration")
+            made = _BUILT.get(id(tr))  # a track object the harness made itself still carries what it was given
+            mo = "?" if made is None or made[0] is not tr else ("N" if made[1] is None else enc_float(made[1]))
+        toks.append(f"{'?' if kid is None else kid}:{mo}:{enc_list([int(v) for v in tr.time_idx])}")
+    return "|".join(toks) if toks else "-"
+
+
+def state_of_case(case):
+    """the same token for a freshly built group: it holds the tracks of the case"""
+    toks = [f"{tr['kymo']}:{'N' if tr['minobs'] is None else enc_float(tr['minobs'])}:{enc_list(tr['idx'])}" for tr in case["tracks"]]
     return "|".join(toks) if toks else "-"
 
 
@@ -375,8 +579,14 @@ def parse_state(tok):
     out = []
     for s in tok.split("|"):
         kid, mo, idx = s.split(":")
-        out.append({"kymo": int(kid), "minobs": None if mo == "N" else dec_float(mo), "idx": dec_list(idx)})
+        out.append({"kymo": None if kid == "?" else int(kid), "minobs": "?" if mo == "?" else (None if mo == "N" else dec_float(mo)),
+                    "idx": dec_list(idx)})
     return out
+
+
+def state_known(tracks, obsmin):
+    """could the harness read everything of the group's tracks that this analysis depends on?"""
+    return all(tr["kymo"] is not None for tr in tracks) and (obsmin or all(tr["minobs"] != "?" for tr in tracks))
 
 
 def split_state(ans):
@@ -391,8 +601,10 @@ def apply_step(st, g, other, kymos):
     """one edit; returns (the group analysed from now on, the other group object that is kept around)"""
     from copy import copy
 
-    from lumicks.pylake.kymotracker.kymotrack import KymoTrackGroup
-    from lumicks.pylake.kymotracker.kymotracker import filter_tracks
+    import lumicks.pylake as lk
+
+    _, KymoTrackGroup = track_classes()
+    filter_tracks = lk.filter_tracks
 
     do = st["do"]
     if do == "again":
@@ -411,17 +623,25 @@ def apply_step(st, g, other, kymos):
         else:
             for t in new:
                 g.extend(t)
-    elif do == "split":  # what the tracking widget does to the group in place
-        if len(g):
+    elif do == "split":  # what the tracking widget does to the group in place (private methods: no public equivalent;
+        if len(g):  # when they are gone the edit simply does not take place)
             tr = g[st["index"] % len(g)]
             if len(tr) >= 2:
-                g._split_track(tr, 1 + st["node"] % (len(tr) - 1), st["min_length"])
+                split = getattr(g, "_split_track", None)
+                if not callable(split) or not takes(split, tr, 1, 1):
+                    _note("KymoTrackGroup._split_track")
+                    raise Unreachable("_split_track")
+                split(tr, 1 + st["node"] % (len(tr) - 1), st["min_length"])
     elif do == "merge":
         if len(g) >= 2:
             a = g[st["index"] % len(g)]
-            same = [t for t in g if t._kymo is a._kymo]  # the widget connects tracks of the kymograph it shows
+            same = [t for t in g if kymo_of(t, len(kymos)) == kymo_of(a, len(kymos))]  # the widget connects tracks of the kymograph it shows
             b = same[st["index2"] % len(same)]
-            g._merge_tracks(a, st["node"] % len(a), b, st["node2"] % len(b))
+            merge = getattr(g, "_merge_tracks", None)
+            if not callable(merge) or not takes(merge, a, 0, b, 0):
+                _note("KymoTrackGroup._merge_tracks")
+                raise Unreachable("_merge_tracks")
+            merge(a, st["node"] % len(a), b, st["node2"] % len(b))
     elif do == "derive":
         how = st["how"]
         if how == "copy":
@@ -452,30 +672,69 @@ def describe_step(st):
     return ", ".join(f"{k}={v}" for k, v in d.items())
 
 
+def analyse_private(group, excl, obsmin):
+    """the anchored mechanism itself: KymoTrackGroup._extract_dwelltime_data_from_groups on the per-kymograph split"""
+    split = getattr(group, "_tracks_by_kymo", None)
+    extract = getattr(type(group), "_extract_dwelltime_data_from_groups", None)
+    if not callable(split) or not takes(split):
+        _note("KymoTrackGroup._tracks_by_kymo")
+        raise Unreachable("_tracks_by_kymo")
+    if not callable(extract) or not takes(extract, [], excl, observed_minimum=obsmin):
+        _note("KymoTrackGroup._extract_dwelltime_data_from_groups")
+        raise Unreachable("_extract_dwelltime_data_from_groups")
+    by_kymo = split()
+    if not (isinstance(by_kymo, tuple) and len(by_kymo) == 2):
+        _note("KymoTrackGroup._tracks_by_kymo")
+        raise Unreachable("_tracks_by_kymo")
+    res = extract(by_kymo[0], excl, observed_minimum=obsmin)
+    if not (isinstance(res, tuple) and len(res) == 5):
+        _note("KymoTrackGroup._extract_dwelltime_data_from_groups")
+        raise Unreachable("_extract_dwelltime_data_from_groups")
+    d, lo, hi, removed, st = res
+    return show_rows([d, lo, hi, st], bool(removed))
+
+
+def analyse_public(group, excl, obsmin, discrete, run_fit):
+    """the same data through the public API: fit_binding_times, the arguments it hands to DwelltimeModel recorded under
+    their public names, the removed-zeros flag read off the warning it issues"""
+    with warnings.catch_warnings(record=True) as wlist:
+        warnings.simplefilter("always")
+        with model_arguments_recorded(run_fit) as seen:
+            try:
+                group.fit_binding_times(1, exclude_ambiguous_dwells=excl, observed_minimum=obsmin, discrete_model=discrete)
+            except _Captured:
+                pass
+    removed = any(issubclass(w.category, RuntimeWarning) and "zero" in str(w.message).lower() for w in wlist)
+    a = seen[0]
+    d = np.asarray(a["dwelltimes"], dtype=float)
+    lo, hi = (np.broadcast_to(np.asarray(a[k], dtype=float), d.shape) for k in MODEL_ARGS[1:3])
+    st = a["discretization_timestep"]
+    st = np.full(d.shape, np.nan) if st is None else np.broadcast_to(np.asarray(st, dtype=float), d.shape)
+    return show_rows([d, lo, hi, st], removed)
+
+
+def via_of(case):
+    """route by which the dwell-time data of this case were observed: cases meant for the private extraction function are
+    observed through fit_binding_times (discretised model, fit not run) when the harness cannot reach that function"""
+    return "fit" if case.get("_public_route") else case["via"]
+
+
+def discrete_of(case):
+    return True if case.get("_public_route") else case.get("discrete", False)
+
+
 def analyse_group(group, case, excl, obsmin):
     """the dwell-time data the group hands to the model: rows + removed-zeros flag, or the exception's name"""
-    from lumicks.pylake.kymotracker.kymotrack import KymoTrackGroup
-
     try:
         if case["via"] == "private":
-            groups, _ = group._tracks_by_kymo()
-            d, lo, hi, removed, st = KymoTrackGroup._extract_dwelltime_data_from_groups(
-                groups, excl, observed_minimum=obsmin
-            )
-            return show_rows([d, lo, hi, st], bool(removed))
-        with warnings.catch_warnings(record=True) as wlist:
-            warnings.simplefilter("always")
-            m = group.fit_binding_times(
-                1,
-                exclude_ambiguous_dwells=excl,
-                observed_minimum=obsmin,
-                discrete_model=case["discrete"],
-            )
-        removed = any("Some dwell times are zero" in str(w.message) for w in wlist)
-        d = np.asarray(m.dwelltimes, dtype=float)
-        lo, hi = (np.broadcast_to(np.asarray(v, dtype=float), d.shape) for v in m._observation_limits)
-        st = np.full(d.shape, np.nan) if m._timesteps is None else np.broadcast_to(m._timesteps, d.shape)
-        return show_rows([d, lo, hi, st], removed)
+            try:
+                if case.get("_public_route"):
+                    raise Unreachable("earlier analysis of this case")
+                return analyse_private(group, excl, obsmin)
+            except Unreachable:
+                case["_public_route"] = True
+                return analyse_public(group, excl, obsmin, True, run_fit=False)
+        return analyse_public(group, excl, obsmin, case["discrete"], run_fit=True)
     except Exception as e:
         return errname(e)
 
@@ -484,11 +743,16 @@ def impl_extract_seq(case):
     kymos = build_kymos(case)
     group = build_group(case, kymos)
     flags = seq_flags(case)
-    out = [observe_group(group, kymos) + " " + analyse_group(group, case, *flags[0])]
+    first = observe_group(group, kymos)
+    if "?" in first:  # a freshly built group holds the tracks it was built from
+        first = state_of_case(case)
+    out = [first + " " + analyse_group(group, case, *flags[0])]
     other, refused = None, []
     for j, (st, (excl, obsmin)) in enumerate(zip(case["steps"], flags[1:])):
         try:
             group, other = apply_step(st, group, other, kymos)
+        except Unreachable as e:  # an edit the harness cannot perform any more: it does not take place
+            refused.append(f"step {j + 1} ({st['do']}): harness cannot reach {e}")
         except Exception as e:  # an edit the group refuses: whatever is in the group afterwards is what counts
             refused.append(f"step {j + 1} ({st['do']}): {errname(e)}")
         out.append(observe_group(group, kymos) + " " + analyse_group(group, case, excl, obsmin))
@@ -505,18 +769,140 @@ def lik_args(case):
     return t, as_arg(case["tmin"]), as_arg(case["tmax"]), as_arg(case["step"]), n
 
 
-def impl_norm(dw, amps, taus, tmin, tmax, step):
+COMPONENTS = "_exponential_mixture_log_likelihood_components"
+LOGLIK = "_exponential_mixture_log_likelihood"
+JACOBIAN = "_exponential_mixture_log_likelihood_jacobian"
+
+
+def impl_norm(amps, taus, tmin, tmax, step):
     """normalisation evaluated on the implementation by explicit summation / Gauss-Legendre quadrature"""
     import scipy.special
 
     if step is None:
         x, w = gl_nodes(tmin, tmax, taus)
-        comps = dw._exponential_mixture_log_likelihood_components(amps, taus, x, tmin, tmax, None)
+        comps = priv(COMPONENTS, amps, taus, x, tmin, tmax, None)(amps, taus, x, tmin, tmax, None)
         return float(np.sum(w * np.exp(scipy.special.logsumexp(comps, axis=0))))
     K, _ = disc_K(tmin, tmax, step, taus)
     grid = tmin + np.arange(K + 1, dtype=float) * step
-    comps = dw._exponential_mixture_log_likelihood_components(amps, taus, grid, tmin, tmax, step)
+    comps = priv(COMPONENTS, amps, taus, grid, tmin, tmax, step)(amps, taus, grid, tmin, tmax, step)
     return float(np.sum(np.exp(scipy.special.logsumexp(comps, axis=0))))
+
+
+# ---- the same observations through the PUBLIC DwelltimeModel (used when an anchored private function is out of reach)
+#
+# DwelltimeModel has no public way to set its parameters; but everything it knows about its parameters comes through one
+# door, scipy.optimize.minimize(cost, x0, jac=gradient, ...).  With that function replaced by a stand-in that evaluates the
+# cost and the gradient it is handed at the harness' point and returns that point as "the optimum", the public model
+# reports -log L at that point (log_likelihood), the gradient handed to the optimiser there, and the density pdf().
+
+
+def public_model_at(amps, taus, t, tmin, tmax, step):
+    """(model built at the given parameters, gradient the optimiser was handed there or None)"""
+    import scipy.optimize
+
+    n = len(amps)
+    point = np.array(list(taus) if n == 1 else list(amps) + list(taus), dtype=float)  # one component: amplitude fixed at 1
+    seen = {}
+
+    def stand_in(fun, x0, *a, jac=None, **kw):
+        if len(np.atleast_1d(x0)) != len(point):
+            raise Unreachable("the optimiser's search space")
+        value = fun(point.copy(), *kw.get("args", ()))
+        seen["jac"] = np.array(jac(point.copy(), *kw.get("args", ())), dtype=float) if callable(jac) else None
+        return scipy.optimize.OptimizeResult(x=point.copy(), fun=value, success=True, status=0, message="stand-in", nit=0)
+
+    with minimize_replaced(stand_in):
+        m = model_class()(np.asarray(t, dtype=float), n, min_observation_time=tmin, max_observation_time=tmax,
+                          discretization_timestep=step)
+    if "jac" not in seen:
+        raise Unreachable("scipy.optimize.minimize as called by DwelltimeModel")
+    if not (np.array_equal(np.asarray(m.amplitudes, dtype=float), np.asarray(amps, dtype=float))
+            and np.array_equal(np.asarray(m.lifetimes, dtype=float), np.asarray(taus, dtype=float))):
+        raise Unreachable("DwelltimeModel does not report the optimiser's point")
+    return m, seen["jac"]
+
+
+def public_norm(amps, taus, tmin, tmax, step):
+    """normalisation through DwelltimeModel.pdf of a model with these scalar limits; "?" for the discretised model with a
+    finite upper limit (pdf() does not draw the bin of the largest observable dwell time, see ASSUMPTIONS)"""
+    if step is not None and math.isfinite(tmax):
+        return "?"
+    inside = tmin + (step if step is not None else min(0.5 * min(taus), 0.5 * (tmax - tmin)))  # any dwell time in the window
+    m, _ = public_model_at(amps, taus, [inside], float(tmin), float(tmax), step)
+    if step is None:
+        x, w = gl_nodes(tmin, tmax, taus)
+        return enc_float(float(np.sum(w * np.sum(np.atleast_2d(m.pdf(x)), axis=0))))
+    K, _ = disc_K(tmin, tmax, step, taus)
+    mid = tmin + (np.arange(K + 1, dtype=float) + 0.5) * step  # the density of a bin is its probability mass / step
+    return enc_float(float(np.sum(np.sum(np.atleast_2d(m.pdf(mid)), axis=0)) * step))
+
+
+def observe(out, f):
+    """append the observation f() makes on the implementation: its canonical string, the name of the exception the
+    implementation raised, or "?" when the harness could not reach what it wanted to look at"""
+    try:
+        out.append(f())
+    except Unreachable:
+        out.append("?")
+    except Exception as e:
+        out.append(errname(e))
+
+
+def impl_lik(case):
+    amps, taus = np.array(case["amps"], dtype=float), np.array(case["taus"], dtype=float)
+    params = np.hstack([amps, taus])
+    t, tmin, tmax, step, n = lik_args(case)
+    perm = case["perm"]
+    out = []
+    public = {}
+
+    def through_public(key, a, tau):
+        if key not in public:
+            try:
+                public[key] = public_model_at(a, tau, t, tmin, tmax, step)
+            except Exception as e:
+                public[key] = e
+        if isinstance(public[key], Exception):
+            raise public[key]
+        return public[key]
+
+    def nll(a, tau, key):
+        p = np.hstack([a, tau])
+        try:
+            return enc_float(priv(LOGLIK, p, t, tmin, tmax, step)(p, t, tmin, tmax, step))
+        except Unreachable:
+            return enc_float(-float(through_public(key, a, tau)[0].log_likelihood))
+
+    def comps():
+        c = priv(COMPONENTS, amps, taus, t, tmin, tmax, step)(amps, taus, t, tmin, tmax, step)
+        return "[" + ";".join(",".join(enc_float(v) for v in row) for row in np.atleast_2d(c)) + "]"
+
+    def jac():
+        try:
+            return fl(priv(JACOBIAN, params, t, tmin, tmax, step)(params, t, tmin, tmax, step))
+        except Unreachable:
+            g = through_public("id", amps, taus)[1]
+            if g is None or len(amps) == 1 or len(g) != 2 * len(amps):
+                raise Unreachable("gradient entries of fixed parameters")  # one component: only the lifetime is searched
+            return fl(g)
+
+    def norm(lo, hi, st):
+        try:
+            return enc_float(impl_norm(amps, taus, lo, hi, st))
+        except Unreachable:
+            return public_norm(amps, taus, lo, hi, st)
+
+    observe(out, lambda: nll(amps, taus, "id"))
+    observe(out, comps)
+    observe(out, jac)
+    observe(out, lambda: nll(amps[perm], taus[perm], "perm"))
+    for lo, hi, st in limit_classes(case):
+        observe(out, lambda: norm(lo, hi, st))
+    if out[0] == "?":
+        # neither the anchored function nor the public model could be brought to evaluate the likelihood at the given
+        # parameters: nothing of this case is tied to the code any more, which is reported (not passed over in silence)
+        out[0] = f"Error:TieBroken:private member {LOGLIK} is gone and DwelltimeModel could not be evaluated at given parameters"
+    return out
 
 
 def impl(case):
@@ -530,43 +916,13 @@ def impl(case):
 
 def _impl(case):
     k = case["op"]
-    dw = _dw()
     if k == "lik":
-        amps, taus = np.array(case["amps"], dtype=float), np.array(case["taus"], dtype=float)
-        params = np.hstack([amps, taus])
-        t, tmin, tmax, step, n = lik_args(case)
-        out = []
-        try:
-            out.append(enc_float(dw._exponential_mixture_log_likelihood(params, t, tmin, tmax, step)))
-        except Exception as e:
-            out.append(errname(e))
-        try:
-            c = dw._exponential_mixture_log_likelihood_components(amps, taus, t, tmin, tmax, step)
-            out.append("[" + ";".join(",".join(enc_float(v) for v in row) for row in np.atleast_2d(c)) + "]")
-        except Exception as e:
-            out.append(errname(e))
-        try:
-            out.append(fl(dw._exponential_mixture_log_likelihood_jacobian(params, t, tmin, tmax, step)))
-        except Exception as e:
-            out.append(errname(e))
-        perm = case["perm"]
-        try:
-            pp = np.hstack([amps[perm], taus[perm]])
-            out.append(enc_float(dw._exponential_mixture_log_likelihood(pp, t, tmin, tmax, step)))
-        except Exception as e:
-            out.append(errname(e))
-        for lo, hi, st in limit_classes(case):
-            try:
-                out.append(enc_float(impl_norm(dw, amps, taus, lo, hi, st)))
-            except Exception as e:
-                out.append(errname(e))
-        return out
+        return impl_lik(case)
     if k == "fit":
-        import scipy.optimize
-
         t, tmin, tmax, step, n = lik_args(case)
         status = []
-        real_minimize = scipy.optimize.minimize
+        handed_bounds = []
+        real_minimize = []
 
         visited = []  # (point, gradient) of every request of the optimiser for the gradient, in order
 
@@ -580,23 +936,23 @@ def _impl(case):
                     return g
 
                 kw = dict(kw, jac=jac_seen)
-            res = real_minimize(*a, **kw)
+            handed_bounds.append(kw.get("bounds"))
+            res = real_minimize[0](*a, **kw)
             status.append("converged" if res.success else f"slsqp-status-{res.status}")
             return res
 
-        scipy.optimize.minimize = spy
         try:
-            m = dw.DwelltimeModel(
-                t,
-                case["ncomp"],
-                min_observation_time=tmin,
-                max_observation_time=tmax,
-                discretization_timestep=step,
-            )
+            with minimize_replaced(spy) as real:
+                real_minimize.append(real)
+                m = model_class()(
+                    t,
+                    case["ncomp"],
+                    min_observation_time=tmin,
+                    max_observation_time=tmax,
+                    discretization_timestep=step,
+                )
         except Exception as e:
             return [errname(e)] * len(fit_layout(case))
-        finally:
-            scipy.optimize.minimize = real_minimize
         status = status[-1] if status else "nothing-to-fit"
         amps, taus = np.array(m.amplitudes, dtype=float), np.array(m.lifetimes, dtype=float)
         out = []
@@ -606,8 +962,20 @@ def _impl(case):
                 if what == "ll":
                     out.append(f"{enc_float(-m.log_likelihood)} {fl(amps)} {fl(taus)} {status}")
                 elif what == "bounds":
-                    b = dw._exponential_mle_bounds(case["ncomp"], tmin, tmax)
                     nc = case["ncomp"]
+                    try:
+                        b = priv("_exponential_mle_bounds", nc, tmin, tmax)(nc, tmin, tmax)
+                    except Unreachable:
+                        # the bounds the optimiser was actually handed (scipy's public `bounds` argument): all of them for
+                        # two or more components, the lifetime's only for one component (its amplitude is not searched)
+                        b = handed_bounds[-1] if handed_bounds else None
+                        if b is None or len(b) != (2 * nc if nc > 1 else 1):
+                            out.append("?")
+                            continue
+                        b = [tuple(float(v) for v in x) for x in b]
+                        if nc == 1:
+                            out.append("? " + fl([b[0][0], b[0][1]]))
+                            continue
                     same = all(x == b[0] for x in b[:nc]) and all(x == b[nc] for x in b[nc:])
                     out.append(fl([b[0][0], b[0][1], b[nc][0], b[nc][1]]) if same else "bounds-differ-per-component")
                 elif what == "pdf":
@@ -647,7 +1015,11 @@ def _impl(case):
         params = np.array([float(Fraction(p)) for p in case["params"]], dtype=float)
         mask = None if case["mask"] is None else np.array(case["mask"], dtype=bool)
         try:
-            fitted, cons, newp = dw._handle_amplitude_constraint(case["n"], params, mask)
+            # anchored mechanism without a public equivalent (no public way to fix parameters of a DwelltimeModel): when
+            # it is out of reach the tie of these cases is reported as broken; what it is for -- fitted amplitudes on the
+            # simplex -- stays checked on every public fit
+            handle = getattr(_dwmod(), "_handle_amplitude_constraint")
+            fitted, cons, newp = handle(case["n"], params, mask)
         except Exception as e:
             return [errname(e)]
         x = np.array([float(Fraction(v)) for v in case["x"]], dtype=float)
@@ -658,10 +1030,9 @@ def _impl(case):
             val = enc_float(cons["fun"](x, *cons["args"]))
         return [f"{enc_list(list(fitted), enc_bool)} {nfree} {fl(newp)} {val}"]
     if k == "extract":
+        case.pop("_public_route", None)
+        _BUILT.clear()
         try:
-            from lumicks.pylake.kymotracker.kymotrack import KymoTrackGroup  # noqa: F401
-            from lumicks.pylake.kymotracker.kymotracker import filter_tracks  # noqa: F401
-
             if "steps" in case:
                 return impl_extract_seq(case)
             group = build_group(case)
@@ -671,7 +1042,7 @@ def _impl(case):
     if k == "validate":
         t, tmin, tmax, step, n = lik_args(case)
         try:
-            dw.DwelltimeModel(
+            model_class()(
                 t, 1, min_observation_time=tmin, max_observation_time=tmax, discretization_timestep=step
             )
             return ["ok"]
@@ -864,9 +1235,10 @@ def fitted_of(case):
 
 def extract_op(case, tracks, excl, obsmin):
     toks = []
+    facts = kymo_facts(case)
     for tr in tracks:
-        ky = case["kymos"][tr["kymo"]]
-        mo = "N" if tr["minobs"] is None else enc_rat(tr["minobs"])
+        ky = facts[tr["kymo"]]
+        mo = "N" if tr["minobs"] is None or tr["minobs"] == "?" else enc_rat(tr["minobs"])  # "?" only where it is not used
         toks.append(f"{tr['kymo']}:{ky['n_lines']}:{enc_rat(ky['line_time'])}:{mo}:{enc_list(tr['idx'])}")
     return " ".join(["c15.extract", enc_bool(excl), enc_bool(obsmin)] + toks)
 
@@ -946,7 +1318,9 @@ def ops(case):
         for j, (excl, obsmin) in enumerate(seq_flags(case)):
             st = split_state(ia[j])[0] if j < len(ia) else None
             try:
-                out.append(extract_op(case, case["tracks"] if st is None else parse_state(st), excl, obsmin))
+                tracks = case["tracks"] if st is None else parse_state(st)
+                # what the harness could not read off the group is not asked about (any well-formed op; answer unused)
+                out.append(extract_op(case, tracks if state_known(tracks, obsmin) else [], excl, obsmin))
             except Exception:
                 out.append("c15.extract group-contents-unreadable")  # -> bad-op: reported as a disagreement
         return out
@@ -998,10 +1372,10 @@ def outside_own_window(rows, discrete):
 
 def agree_extract(case, ia, ma, ordered):
     if ia.endswith("Error") or ma.endswith("Error"):
-        if case["via"] == "fit" and ia == "RuntimeError" and not ma.endswith("Error"):
+        if via_of(case) == "fit" and ia == "RuntimeError" and not ma.endswith("Error"):
             return parse_rows(ma)[0] == []  # "No tracks available for analysis"
-        if case["via"] == "fit" and ia == "ValueError" and not ordered and not ma.endswith("Error"):
-            return outside_own_window([[float(dec_rat(x)) for x in q] for q in parse_rows(ma)[0]], case["discrete"])
+        if via_of(case) == "fit" and ia == "ValueError" and not ordered and not ma.endswith("Error"):
+            return outside_own_window([[float(dec_rat(x)) for x in q] for q in parse_rows(ma)[0]], discrete_of(case))
         return ia == ma
     R, f1 = parse_rows(ia)
     Q, f2 = parse_rows(ma)
@@ -1011,7 +1385,7 @@ def agree_extract(case, ia, ma, ordered):
     def same(r, q):
         for j, (x, y) in enumerate(zip(r, q)):
             xv = dec_float(x)
-            if j == 3 and case["via"] == "fit" and not case["discrete"]:
+            if j == 3 and via_of(case) == "fit" and not discrete_of(case):
                 if not math.isnan(xv):
                     return False
                 continue
@@ -1030,6 +1404,8 @@ def agree(case, i, ia, ma):
         if k == "lik":
             amps, taus = case["amps"], case["taus"]
             t = np.array(case["t"], dtype=float)
+            if ia == "?":
+                return True  # the harness could not make this observation (see `observe`): nothing to compare
             if ia.endswith("Error") or ma in ("bad-op",):
                 return False
             if i in (0, 3):
@@ -1058,6 +1434,10 @@ def agree(case, i, ia, ma):
             if what == "ll":
                 return close(dec_float(ia.split(" ")[0]), dec_float(ma), 1e-9, 1e-11 * nll_scale(amps, taus, t))
             if what == "bounds":
+                if ia == "?":
+                    return True  # neither _exponential_mle_bounds nor the bounds handed to the optimiser could be read
+                if ia.startswith("? "):  # one component, read off the optimiser's arguments: the lifetime's bounds only
+                    return all(close(x, y, 1e-12) for x, y in zip(dec_fl(ia[2:]), dec_fl(ma)[2:]))
                 return ia.startswith("[") and all(close(x, y, 1e-12) for x, y in zip(dec_fl(ia), dec_fl(ma)))
             if what == "pdf":
                 A, B = dec_mat(ia), dec_mat(ma)
@@ -1112,6 +1492,8 @@ def agree(case, i, ia, ma):
             st, payload = split_state(ia)
             if st is None:
                 return False  # the group could not even be built
+            if not state_known(parse_state(st), seq_flags(case)[i][1]):
+                return True  # the harness could not read the group's tracks: this analysis is not judged
             if not parse_state(st) and payload.endswith("Error"):
                 return not ma.endswith("Error") and parse_rows(ma)[0] == []  # nothing in the group, nothing handed over
             return agree_extract(case, payload, ma, ordered=False)
@@ -1150,25 +1532,29 @@ def oracle_lik(case, ia):
         if a.endswith("Error"):
             return f"likelihood-evaluates: admissible parameters raised {a}"
     with np.errstate(all="ignore"):
-        ref = float(o_nll(amps, taus, t, tmin, tmax, step))
-        nll = dec_float(ia[0])
+        # an observation the harness could not make is "?" (see `observe`); the clauses that need it are skipped
         sc = nll_scale(amps, taus, t)
-        if not close(nll, ref, 1e-9, 1e-10 * sc):
-            return f"likelihood-value: -log L = {nll!r} but the truncated mixture density gives {ref!r}"
-        nllp = dec_float(ia[3])
-        if not close(nll, nllp, 1e-10, 1e-12 * sc):
+        nll = None if ia[0] == "?" else dec_float(ia[0])
+        if nll is not None:
+            ref = float(o_nll(amps, taus, t, tmin, tmax, step))
+            if not close(nll, ref, 1e-9, 1e-10 * sc):
+                return f"likelihood-value: -log L = {nll!r} but the truncated mixture density gives {ref!r}"
+        nllp = None if ia[3] == "?" else dec_float(ia[3])
+        if nll is not None and nllp is not None and not close(nll, nllp, 1e-10, 1e-12 * sc):
             return f"relabel-invariant: -log L = {nll!r}, after relabelling components with {case['perm']} {nllp!r}"
-        g = dec_fl(ia[2])
-        gn = o_numgrad(amps, taus, t, tmin, tmax, step)
+        g = [] if ia[2] == "?" else dec_fl(ia[2])
+        gn = o_numgrad(amps, taus, t, tmin, tmax, step) if g else []
         # every entry is looked at on the scale of the terms it sums, not on the worst-case scale n/a_j: the entries that
         # belong to a rare component are small, and they are exactly the ones an amplitude clamp or floor distorts
-        gs = grad_tolerance(amps, taus, t, tmin, tmax, step, 1e-7, NUM_EPS)
+        gs = grad_tolerance(amps, taus, t, tmin, tmax, step, 1e-7, NUM_EPS) if g else []
         for j in range(len(g)):
             if not close(g[j], float(gn[j]), 1e-6, gs[j]):
                 which = f"amplitude {j}" if j < len(amps) else f"lifetime {j - len(amps)}"
                 return (f"gradient: analytic d(-log L)/d({which}) = {g[j]!r}, numerical gradient of the log-likelihood "
                         f"{float(gn[j])!r}")
         for idx, (lo, hi, st) in enumerate(limit_classes(case)):
+            if ia[4 + idx] == "?":
+                continue
             total = dec_float(ia[4 + idx])
             if st is not None and not disc_K(lo, hi, st, taus)[1]:
                 continue  # support not covered by the explicit sum (recorded in extra_coverage)
@@ -1321,7 +1707,7 @@ def expected_rows(case):
             order.append(tr["kymo"])
     rows, removed, missing = [], False, False
     for kid in order:
-        ky = case["kymos"][kid]
+        ky = kymo_facts(case)[kid]
         lt, nl = Fraction(ky["line_time"]), ky["n_lines"]
         kept = []
         for tr in case["tracks"]:
@@ -1363,12 +1749,12 @@ def oracle_extract(case, ia, ordered=True):
     rows, removed, missing = expected_rows(case)
     if missing:
         return None if a == "RuntimeError" else f"extraction-missing-minimum: a kept track has no minimum observable duration but {a[:80]}"
-    if case["via"] == "fit" and not rows:
+    if via_of(case) == "fit" and not rows:
         return None if a == "RuntimeError" else f"extraction-no-tracks: nothing to analyse but {a[:80]}"
     if not ordered and not case["tracks"] and a.endswith("Error"):
         return None  # a group without tracks: nothing is handed over, by empty arrays or by refusing
-    if not ordered and case["via"] == "fit" and a == "ValueError" and outside_own_window(
-            [[float(x) for x in e] for e in rows], case["discrete"]):
+    if not ordered and via_of(case) == "fit" and a == "ValueError" and outside_own_window(
+            [[float(x) for x in e] for e in rows], discrete_of(case)):
         return None  # the rows of these tracks do not pass the model's own argument validation: nothing to look at
     if a.endswith("Error"):
         return f"extraction: raised {a} for a valid track group"
@@ -1376,7 +1762,7 @@ def oracle_extract(case, ia, ordered=True):
     if len(R) != len(rows):
         return f"extraction-tracks-kept: {len(R)} dwell times handed over, {len(rows)} tracks qualify"
     names = ["dwell time", "minimum observation time", "maximum observation time", "discretisation step"]
-    cols = [j for j in range(4) if not (j == 3 and case["via"] == "fit" and not case["discrete"])]
+    cols = [j for j in range(4) if not (j == 3 and via_of(case) == "fit" and not discrete_of(case))]
     if ordered:
         for i, (r, e) in enumerate(zip(R, rows)):
             for j in cols:
@@ -1404,6 +1790,8 @@ def oracle_extract_seq(case, ia):
     for j, (a, (excl, obsmin)) in enumerate(zip(ia, flags)):
         st, payload = split_state(a)
         tracks = parse_state(st)
+        if not state_known(tracks, obsmin):
+            continue  # the harness could not read the group's tracks: this analysis is not judged
         sub = {k: v for k, v in case.items() if k != "steps"}
         sub.update(tracks=tracks, excl=excl, obsmin=obsmin)
         msg = oracle_extract(sub, [payload], ordered=False)
@@ -2159,4 +2547,5 @@ def extra_coverage(results):
             "extraction": ext, "extraction_same_group_object_edited": dict(seq, edits=seq_edits), "amplitude_constraint": cons, "pdf_of_pooled_windows": pooled,
             "gradient_handed_to_the_optimiser": handed, "lik_cases_with_an_amplitude_below_1e-4": rare_lik, "exhaustive": False,
             "exhaustive_note": "the small-scope streams enumerate their finite spaces completely; the random streams do not",
-            "dropped_for_margin": dict(_DROPPED)}
+            "dropped_for_margin": dict(_DROPPED),
+            "private_members_the_harness_could_not_reach": dict(_UNREACHABLE)}
